@@ -673,7 +673,7 @@ func monC14(c *drv.Ctx) {
 		if cs.Idx%4 == 0 {
 			// a map of more than 2^18 keys, loaded last: whatever a load of that size sets in motion must be over
 			// when it returns, the goroutines query it the moment they start
-			maps = append(maps, newSharedMaps(cs.R, 270000))
+			maps = append(maps, newSharedMaps(cs.R, 340000)) // (about a sixth of the generated keys are duplicates and dropped)
 			cs.C.Obs("shared maps of more than 2^18 keys", 1)
 		}
 		states := make([]*gState, g.G)
